@@ -260,6 +260,28 @@ CHECKS["C15"] = dict(
          "not yet replayed; fillets held to the tolerance, not to exactness.",
     design="4 C15")
 
+CHECKS["C07"] = dict(
+    level="model_checking",
+    technique="TLA+ spec Paths.tla (FlexPath bookkeeping state machine; exact swept-region "
+              "semantics SureIn/SureOut for Manhattan spines in quadrupled integer coordinates, "
+              "proved consistent by TLC); TLC-enumerated construction histories and path "
+              "descriptions replayed on gdstk::FlexPath; validated by TLC",
+    text="(a) For every construction call kind (incl. command strings and repeated points), with "
+         "and without width/offset targets, on 1..3 parallel elements, TLC checks that each call "
+         "adds at least one spine point and exactly as many width/offset entries to every element, "
+         "that the last entry is the requested target and that outlines can still be produced after "
+         "overlapping points are removed. (b) For Manhattan spines x constant / tapering / "
+         "alternating widths x offsets x natural / miter / bevel / round joins x flush / half-width "
+         "/ extended / round caps, TLC checks on 1517 exact sample points per element that every "
+         "point surely within half the local width of the centre line (spine displaced by the "
+         "offset, mitred corners) or inside the cap is covered by gdstk's outline and that no point "
+         "beyond the join's reach or the cap plane is.",
+    note="Trusted: TLC, Paths.tla, the harness's floating-point winding-number test of samples "
+         "against gdstk's outline. Curved spines and circular bends are not in the region check "
+         "(their centre curves are irrational); PATH-record equivalence follows from C01 for simple "
+         "paths. One known finding (taper + negative extension).",
+    design="4 C07")
+
 NOT_YET = {}
 
 
